@@ -72,19 +72,29 @@ def find_counterexample(pid, unit, failure, seed):
     return dict(confirmed_on_real_code=False, note='directed concrete search: %d scenario(s) tried against the real code, none failed' % tried)
 
 
-def run_all_probes(pid, seed):
+# thorough tier only: deeper variants of the generator-based sweeps (minutes, not seconds)
+THOROUGH_EXTRA = {
+    'C05': [dict(kind='decode_exhaustive', max_len=3, only=[0, 1, 2, 6, 7, 8, 20]), dict(kind='truncation_sweep', seed=11), dict(kind='truncation_sweep', seed=12)],
+    'C06': [dict(kind='decode_exhaustive', max_len=3, only=[0, 1, 2, 3, 5, 9, 12, 14, 15, 19, 20]), dict(kind='truncation_sweep', seed=21), dict(kind='truncation_sweep', seed=22), dict(kind='truncation_sweep', seed=23)],
+    'C14': [dict(kind='container_matrix'), dict(kind='truncation_sweep', seed=31)],
+    'C01': [dict(kind='truncation_sweep', seed=41), dict(kind='decode_exhaustive', max_len=3, only=[2, 16, 14, 15])],
+}
+
+
+def run_all_probes(pid, seed, tier='quick'):
     """Thorough tier: the whole probe catalogue of the property is replayed against the real code (conformance run of the
     assumed contracts A9/A10/A11 and of the extraction).  Returns (n_run, [reproduced...])."""
     if not build_replay():
         return 0, [dict(scenario=None, output='replay binary could not be built: ' + _built.get('log', '')[-300:], infra=True)]
     n = 0
     bad = []
-    for sc in probes_for(pid, '*'):
+    scenarios = probes_for(pid, '*') + (THOROUGH_EXTRA.get(pid, []) if tier == 'thorough' else [])
+    for sc in scenarios:
         sc = dict(sc)
-        if sc.get('kind') == 'truncation_sweep':
+        if sc.get('kind') == 'truncation_sweep' and 'seed' not in sc:
             sc['seed'] = seed
         n += 1
-        rc, out = run_scenario(sc, timeout=300)
+        rc, out = run_scenario(sc, timeout=1800 if tier == 'thorough' else 300)
         if rc == 1:
             bad.append(dict(scenario=sc, output=out[:1500]))
     return n, bad
